@@ -195,7 +195,9 @@ def stray_line(stray, conf, spec):
         # a different (unconfigured) name that agrees with the awaited one in its first 63 characters, or is a
         # prefix / an extension of it
         how = stray.get("shape", "prefix")
-        if len(svc) > 63 and how in ("prefix", "times16", "plus16"):
+        if "?" in svc:
+            svc = svc.replace("?", "a")            # a name the configured one would match as a pattern
+        elif len(svc) > 63 and how in ("prefix", "times16", "plus16"):
             svc = svc[:63] + "-other-tail"
         elif how in ("lead0", "drop_last"):
             svc = svc[:-1]
@@ -534,7 +536,16 @@ def address_s(draw):
         groups = [draw(st.integers(0x1000, 0xffff)) for _ in range(8)]
         if draw(st.booleans()):
             groups[draw(st.integers(0, 7))] = draw(st.sampled_from([0, 1, 0xfff]))
-    return addr_text(groups)[0]
+    text = addr_text(groups)[0]
+    if k == 5:
+        # mixed notation with all six leading groups written out
+        return ":".join("%x" % g for g in groups[:6]) + ":%d.%d.%d.%d" % (groups[6] >> 8, groups[6] & 255, groups[7] >> 8, groups[7] & 255)
+    if k == 6:
+        # the compressed or the zero-padded upper-case spelling of the same address (never starting with ':')
+        import ipaddress
+        comp = ipaddress.IPv6Address(addr_text(groups)[1]).compressed
+        return ("0" + comp if comp.startswith(":") else comp) if draw(st.booleans()) else ":".join("%04X" % g for g in groups)
+    return text
 
 
 LOG_KEYS = ["*.*", "*.>=info", "*.>=debug", "core.*", "config.>=warning", "iauth.debug,info", "iauth_xquery.<=warning",
@@ -715,7 +726,9 @@ ACCT_PATS = ["alice", "al*", "*", "?lice", "a*e", "bob", "*oper", "alice?", "b?b
 IDENTS = ["joe", "~joe", "oper", "~web", "j"]
 IDENT_PATS = ["joe", "~*", "*", "j*", "?per", "~joe", "~w?b", "x*"]
 HOSTS = ["a.example.org", "b.example.org", "trusted.net", "x.y.z", ""]
-HOST_PATS = ["*.example.org", "trusted.*", "*", "?.example.org", "a.example.org", "*.net", "nomatch.*", ""]
+HOST_PATS = ["*.example.org", "trusted.*", "*", "?.example.org", "a.example.org", "*.net", "nomatch.*", "",
+             # patterns that would match an address text (a client without a host name has the empty host name)
+             "*.*", "10.*", "*:*", "?*"]
 NETS4 = [(10, 0, 0, 0), (10, 1, 2, 3), (192, 168, 0, 77), (127, 0, 0, 1), (10, 1, 255, 255), (11, 0, 0, 0), (0, 0, 0, 0), (0, 0, 0, 0), (128, 0, 0, 0)]
 NETS6 = [0x20010db8000000000000000000000001, 0x20010db8000100000000000000000002, 0xfe800000000000000000000000010002,
          0x20010db9000000000000000000000001, 0, 0xffff00000000, 0x2001abcdef0000000000000000000001, 0xfc00dead0000beef0000000000000001]
@@ -774,7 +787,7 @@ def rule_s(draw, name, svcs):
     else:
         crit = draw(st.sampled_from([[], ["account"], ["address"], ["username"], ["hostname"]]))
     if draw(st.integers(0, 4)) > 0:
-        f["class"] = draw(st.sampled_from(["trusted", "clients", "opers", "c1", "c2", "Users", "x" * 62]))
+        f["class"] = draw(st.sampled_from(["trusted", "clients", "opers", "c1", "c2", "Users", "x" * 62, "y" * 63, "z" * 64, "w" * 100]))
     for c in crit:
         if c == "account":
             f["account"] = draw(st.sampled_from(ACCT_PATS))
